@@ -37,7 +37,8 @@ ASSUMPTIONS = ['update mode deliberately loads without verification; only loader
 
 TAMPERS = ['change', 'add', 'remove', 'dist-change', 'dist-add', 'dist-remove']
 APIS = ['assert_directory_verifies-root', 'assert_directory_verifies-dir',
-        'verify_path', 'assert_path_verifies', 'find_path_entry', 'find_dist_entry']
+        'verify_path', 'assert_path_verifies', 'find_path_entry', 'find_dist_entry',
+        'cli-verify-dir', 'cli-verify-root']
 
 
 def units(tier, seed):
@@ -53,6 +54,10 @@ def units(tier, seed):
             for draw in range(1 if tier == 'quick' else 5):
                 u.append({'k': 'chain', 'depth': depth, 'tamper': 'change',
                           'draw': 100 + draw, 'weak': weak})
+    for depth in (1, 2, 3):
+        for draw in range(2 if tier == 'quick' else 10):
+            u.append({'k': 'chain', 'depth': depth, 'tamper': 'change',
+                      'draw': 200 + draw, 'stealth': 'STEALTH'})
     if tier == 'quick':
         for depth in (4, 5):
             for t in TAMPERS:
@@ -86,7 +91,8 @@ def build(rng, root, depth, weak=None):
             layout['mans'][prev]['entries'].append(
                 {'tag': 'MANIFEST', 'path': os.path.relpath(mp, pdir or '.'),
                  'size': 0, 'sums': {},
-                 '_auto': [weak] if weak else glayout.rand_hashes(rng, False)})
+                 '_auto': [weak] if weak and weak != 'STEALTH'
+                 else glayout.rand_hashes(rng, False)})
         chain.append(mp)
         target = mp
         if rng.random() < 0.3 and not weak:
@@ -210,11 +216,23 @@ def run_case(ctx, root, case, layout, dirs, chain, files):
         k = idx
         forged = [tman]
     for fm in forged:
-        if case.get('weak'):
+        if case.get('weak') or case.get('stealth'):
             continue        # sizes must stay equal: no marker
         layout['mans'][fm]['entries'].append(
             {'tag': 'DIST', 'path': marker, 'size': 1, 'sums': {'SHA1': 'ab' * 20}})
+    stamps = {}
+    if case.get('stealth'):
+        for fm in forged:
+            st = os.stat(os.path.join(root, fm))
+            stamps[fm] = (st.st_atime_ns, st.st_mtime_ns, st.st_size)
     glayout.render(root, layout, only=set(forged))
+    if case.get('stealth'):
+        # rewritten in place (same inode), same size, timestamps put back
+        for fm, (at, mt, sz) in stamps.items():
+            if os.path.getsize(os.path.join(root, fm)) != sz:
+                ctx.discarded('stealth tamper changed a Manifest size')
+                return
+            os.utime(os.path.join(root, fm), ns=(at, mt))
     first_broken = chain[k]
     # oracle self-check: below the broken link everything is consistent
     bdir = os.path.dirname(first_broken)
@@ -238,7 +256,22 @@ def run_case(ctx, root, case, layout, dirs, chain, files):
     m = ManifestRecursiveLoader(top, verify_openpgp=False)
     result = None
     try:
-        if api == 'assert_directory_verifies-root':
+        # histories: an innocent lookup on the same loader first (as the CLI does)
+        pre = case.get('pre')
+        if pre == 'find_timestamp':
+            m.find_timestamp()
+        elif pre == 'find_dist':
+            m.find_dist_entry('no-such-dist', '')
+        if api.startswith('cli-verify'):
+            from gemato import cli as gcli
+            import logging
+            logging.getLogger().setLevel(logging.CRITICAL)
+            target = root if api.endswith('root') else os.path.join(root, tdir)
+            rc = gcli.main(['gemato', 'verify', '-P', target])
+            if rc != 0:
+                return
+            result = 'exit status 0'
+        elif api == 'assert_directory_verifies-root':
             result = m.assert_directory_verifies('')
         elif api == 'assert_directory_verifies-dir':
             result = m.assert_directory_verifies(tdir)
@@ -282,10 +315,13 @@ def gen_and_run(ctx, u, k, api, seed):
     rng = common.rng_for(ctx.seed, ID, u['depth'], u['tamper'], u['draw'])
     with common.Scratch('vf-c02-') as d:
         root = os.path.join(d, 't')
-        layout, dirs, chain, files = build(rng, root, u['depth'], u.get('weak'))
+        layout, dirs, chain, files = build(rng, root, u['depth'],
+                                           u.get('weak') or u.get('stealth'))
         case = {'kind': 'c02', 'depth': u['depth'], 'tamper': u['tamper'],
                 'draw': u['draw'], 'k': k, 'api': api, 'seed': seed,
-                'gen_seed': ctx.seed, 'weak': u.get('weak')}
+                'gen_seed': ctx.seed, 'weak': u.get('weak'),
+                'stealth': u.get('stealth'),
+                'pre': [None, 'find_timestamp', 'find_dist'][seed % 3]}
         run_case(ctx, root, case, layout, dirs, chain, files)
         return len(chain), case
 
@@ -294,7 +330,8 @@ def run_unit(u, ctx):
     rng = common.rng_for(ctx.seed, ID, u['depth'], u['tamper'], u['draw'])
     with common.Scratch('vf-c02-') as d:
         root = os.path.join(d, 't')
-        layout, dirs, chain, files = build(rng, root, u['depth'], u.get('weak'))
+        layout, dirs, chain, files = build(rng, root, u['depth'],
+                                           u.get('weak') or u.get('stealth'))
         nchain = len(chain)
     n = 0
     for k in range(1, nchain):
@@ -308,5 +345,5 @@ def run_unit(u, ctx):
 def replay(case, ctx):
     ctx.seed = case.get('gen_seed', ctx.seed)
     u = {'depth': case['depth'], 'tamper': case['tamper'], 'draw': case['draw'],
-         'weak': case.get('weak')}
+         'weak': case.get('weak'), 'stealth': case.get('stealth')}
     gen_and_run(ctx, u, case['k'], case['api'], case['seed'])
